@@ -179,8 +179,18 @@ ARGC = {"M": 2, "L": 2, "H": 1, "V": 1, "C": 6, "S": 4, "Q": 4, "T": 2, "A": 7}
 LETTERS = "LlMmZzHhVvCcSsQqTtAa"
 
 
+def huge_token(d):
+    """a radius many orders of magnitude above the coordinates: a very shallow piece of a very large ellipse"""
+    return "%s%s%d" % (d.choice(["1", "2.5", "4", "7.3", "9.99"]), d.choice("eE"), d.int(6, 12))
+
+
 def arg_group(d, up):
     if up == "A":
+        if d.chance(1, 10):
+            return [
+                huge_token(d), huge_token(d) if d.bool() else number_token(d, nonneg=True), number_token(d),
+                d.choice("01"), d.choice("01"), number_token(d), number_token(d),
+            ], (3, 4)
         return [
             number_token(d, nonneg=True), number_token(d, nonneg=True), number_token(d),
             d.choice("01"), d.choice("01"), number_token(d), number_token(d),
